@@ -31,4 +31,11 @@ def step (args : List String) : String :=
     | _, _, _ => "bad-op"
   | _ => "bad-op"
 
+/-- `C09S endblock <height>`: the bridge module's `EndBlock` installs a `recover` of its own (regenerated fact: `Gen/Panics`,
+    the block path stops at functions that recover), so in the model it comes back whatever a collaborator does -/
+def stepSky (args : List String) : String :=
+  match args with
+  | "endblock" :: _ => "returned"
+  | _ => "bad-op"
+
 end Driver.C09G
